@@ -36,12 +36,17 @@ func genMigrate(g *hx.RNG, newState bool) *Scenario {
 		m.L1 = "absent"
 	}
 	sc.Mig = m
-	changingWrites(sc)
+	// storage diffs may rewrite the value a slot already has (the legacy backend logs no history entry for such
+	// an entry; the migration skips entries without a log since the /repo fix) - half of the scenarios keep
+	// them, the other half list changed slots only
+	if g.Chance(50) {
+		changingWrites(sc)
+	}
 	return sc
 }
 
 // changingWrites rewrites the storage diffs so that every entry changes the slot's value (the
-// protocol's state diffs list changed slots only; the migration relies on one history log per entry)
+// protocol's state diffs list changed slots only)
 func changingWrites(sc *Scenario) {
 	cur := map[[2]uint64]uint64{}
 	for i := range sc.Specs {
